@@ -164,10 +164,15 @@ def generate(rng, tier):
     while spec is None:
         spec = maybe_daqmx_world(rng, 1.0)
     w = build(spec)
-    reqs = _lazy.gen_requests(rng, w, 'quick', per_channel=10)
-    reqs = [r for r in reqs if r['op'] == 'read_data'][:40]
+    allreqs = _lazy.gen_requests(rng, w, 'quick', per_channel=10)
+    reqs = [r for r in allreqs if r['op'] == 'read_data'][:40]
     for r in reqs:
         r['scaled'] = False
+    # scaled integer indices and slices too (for a channel whose only scale is a raw scaler they are that scaler's values):
+    # integer indexing keeps the chunk last read, slices may be served from it
+    extra = [r for r in allreqs if r['op'] in ('index', 'slice') and not (r['op'] == 'slice' and r.get('step') == 0)][:24]
+    reqs = reqs + extra
+    rng.shuffle(reqs)
     cuts = None
     last = w.segs[-1]
     lo, n = max(4, last.pos + 1), len(w.data)
@@ -312,9 +317,14 @@ def execute(case):
         # lazy windows = slices of the model
         for i, op in enumerate(case['ops']):
             full = fulls.get(op['ch'])
+            if op['op'] != 'read_data':
+                full = _lazy.op_full(w, w.chans[op['ch']], op, False)
+                if full is not None:
+                    res.probe('scaled-index-or-slice')
             if full is None:
                 continue
-            v, g_, exc = _lazy.check_op(lazy, w, op, full, 'C11.window', 'lazy')
+            # every third lazy result is worked on in place by the caller afterwards
+            v, g_, exc = _lazy.check_op(lazy, w, op, full, 'C11.window', 'lazy', res=res, scribble=(i % 3 == 0))
             res.steps += 1
             if v is not None:
                 res.violations.append(v)
